@@ -158,8 +158,12 @@ def column_relative_humidity(q, p, t, axis=0):
         qs = np.zeros(dim)
         es = es.swapaxes(0,axis)
         qs = qs.swapaxes(0,axis)
+        # (a pressure array of the same rank has its levels on `axis`, too)
+        p_lev = np.asarray(p)
+        if p_lev.ndim > 1:
+            p_lev = p_lev.swapaxes(0, axis)
         for i in range(0,l):
-            qs[i] = water_vapor_pressure2specific_humidity(es[i], p[i])
+            qs[i] = water_vapor_pressure2specific_humidity(es[i], p_lev[i])
         es = es.swapaxes(axis,0)
         qs = qs.swapaxes(axis,0)
         # qs to vmrs
